@@ -372,6 +372,7 @@ Fixpoint btpe_loop (fuel : nat) (m : Z) (p1 x_m x_l x_r c p2 lambda_l lambda_r p
     (* Uniform::new(0., p4).sample / Uniform::new(0., 1.).sample *)
     let u := Exact (Dy (w1 / 2^12) (-52)) *. p4 in
     let v := Exact (Dy (w2 / 2^12) (-52)) in
+    let vz := (w2 / 2^12 =? 0) in      (* v == 0.0: ln v = -inf in regions 3 and 4 *)
     g1 <- sask CGt u p1 ;;
     if negb g1 then f64_to_u64 (x_m -. p1 *. v +. u) else
     g2 <- sask CGt u p2 ;;
@@ -385,6 +386,7 @@ Fixpoint btpe_loop (fuel : nat) (m : Z) (p1 x_m x_l x_r c p2 lambda_l lambda_r p
     g3 <- sask CGt u p3 ;;
     if negb g3 then
       (* region 3 *)
+      if vz then again else            (* y_tmp = -inf < 0 *)
       let y_tmp := x_l +. eln v /. lambda_l in
       neg <- sask CLt y_tmp (num 0) ;;
       if neg then again else
@@ -392,6 +394,7 @@ Fixpoint btpe_loop (fuel : nat) (m : Z) (p1 x_m x_l x_r c p2 lambda_l lambda_r p
       step5 y (v *. ((u -. p2) *. lambda_l))
     else
       (* region 4: `as u64` saturates *)
+      if vz then (if n <? U64MAX then again else sfail 4) else      (* y = u64::MAX > n *)
       y0 <- sfloor (x_r -. eln v /. lambda_r) ;;
       let y := Z.min (Z.max y0 0) U64MAX in
       if n <? y then again else step5 y (v *. ((u -. p3) *. lambda_r))
@@ -515,7 +518,7 @@ Definition cubic (r : expr) : expr := one +. r *. (mhalf +. r /. num 3).
 Definition sneg (is_zero : bool) (x : expr) : sampler bool :=
   if is_zero then sret false else sask CLt x (num 0).
 (* Step 4: Some y = accept, None = continue *)
-Definition h2pe_step4 (y : Z) (v : expr) : sampler (option Z) :=
+Definition h2pe_step4 (y : Z) (v : expr) (vz : bool) : sampler (option Z) :=
   let yf := zf y in
   if (m <? 100) || (y <=? 50) then
     (* 4.1 *)
@@ -545,6 +548,7 @@ Definition h2pe_step4 (y : Z) (v : expr) : sampler (option Z) :=
     let nm := plus_half (n2 - k + m) in
     let ub := xm *. r *. cubic r +. xn *. s *. cubic s +. xk *. t *. cubic t +. nm *. e *. cubic e
               +. yf *. gu -. mf *. gl +. dec 34 4 in
+    if vz then sret (Some y) else      (* v == 0.0: av = -inf passes the squeeze *)
     let av := eln v in
     gt <- sask CGt av ub ;;
     if gt then sret None else
@@ -567,20 +571,22 @@ Fixpoint h2pe_loop (fuel : nat) : sampler Z :=
   match fuel with
   | O => sfail 2
   | S fu =>
-    let step4 (y : Z) (v : expr) : sampler Z :=
-      o <- h2pe_step4 y v ;; match o with Some y => sret y | None => h2pe_loop fu end in
+    let step4 (y : Z) (v : expr) (vz : bool) : sampler Z :=
+      o <- h2pe_step4 y v vz ;; match o with Some y => sret y | None => h2pe_loop fu end in
     w1 <- next_word ;; w2 <- next_word ;;
     let u := Exact (Dy (w1 / 2^12) (-52)) *. p3 in      (* Uniform::new(0.0, p3).sample *)
     let v := u_std F64 w2 in
+    let vz := (w2 / 2^11 =? 0) in      (* v == 0.0: ln v = -inf, the tail proposals are out of range *)
     le1 <- sask CLe u p1 ;;
-    if le1 then y <- sfloor (x_l +. u) ;; step4 y v else
+    if le1 then y <- sfloor (x_l +. u) ;; step4 y v vz else
+    if vz then h2pe_loop fu else
     le2 <- sask CLe u p2 ;;
     if le2 then
       y <- sfloor (x_l +. eln v /. lambda_l) ;;
-      if Z.max 0 (k - n2) <=? y then step4 y (v *. (u -. p1) *. lambda_l) else h2pe_loop fu
+      if Z.max 0 (k - n2) <=? y then step4 y (v *. (u -. p1) *. lambda_l) false else h2pe_loop fu
     else
       y <- sfloor (x_r -. eln v /. lambda_r) ;;
-      if Z.max y 0 <=? Z.min n1 k then step4 y (v *. (u -. p2) *. lambda_r) else h2pe_loop fu
+      if Z.max y 0 <=? Z.min n1 k then step4 y (v *. (u -. p2) *. lambda_r) false else h2pe_loop fu
   end.
 End H2pe.
 
